@@ -358,6 +358,151 @@ class SlotCase:
         return self.key()
 
 
+# ------------------------------------------------------------------ several live returned temporaries (RetTemps.tla)
+class TempCase:
+    def __init__(self, shape, cls, flavour, kind):
+        self.n, self.shape, self.cls, self.flavour, self.kind = 0, shape, cls, flavour, kind
+        self.args = [kind]
+        self.sz = KT[kind][1][0][1]
+        self.bases = [1, 40, 80][:3 if shape == "triple" else 2]
+
+    def key(self):
+        return "rettemps:%s:%s:%s" % (self.shape, self.flavour, self.kind)
+
+    def asm_s(self):
+        if self.flavour != "early":
+            return ""
+        n, sz = self.n, self.sz
+        zero = "  xor %%ecx, %%ecx\n1: movb $0, (%%rdi,%%rcx)\n  inc %%rcx\n  cmp $%d, %%rcx\n  jne 1b\n  xor %%ecx, %%ecx\n" % sz
+        mk = zero + "2: lea (%%rsi,%%rcx), %%eax\n  movb %%al, (%%rdi,%%rcx)\n  inc %%rcx\n  cmp $%d, %%rcx\n  jne 2b\n  mov %%rdi, %%rax\n  ret\n" % sz
+        rv = zero + "2: movb (%%rsi,%%rcx), %%al\n  xor $1, %%al\n  movb %%al, (%%rdi,%%rcx)\n  inc %%rcx\n  cmp $%d, %%rcx\n  jne 2b\n  mov %%rdi, %%rax\n  ret\n" % sz
+        return ".text\n.globl mk_%d\nmk_%d:\n%s.globl rv_%d\nrv_%d:\n%s" % (n, n, mk, n, n, rv)
+
+    def callee_c(self):
+        K, n, sz = ctype(self.kind), self.n, self.sz
+        L = ["long use2_%d(const char *a, const char *b) { long s = 0; for (int i = 0; i < %d; i++) s += a[i] * (i + 1L) + 1000000L * b[i] * (i + 1); return s; }" % (n, sz),
+             "long use3_%d(const char *a, const char *b, const char *c) { long s = use2_%d(a, b); for (int i = 0; i < %d; i++) s += 1000000000000L * c[i] * (i + 1); return s; }" % (n, n, sz)]
+        if self.flavour == "late":
+            L.append("%s mk_%d(int base) { %s r; for (int i = 0; i < %d; i++) r.m0[i] = base + i; return r; }" % (K, n, K, sz))
+            L.append("%s rv_%d(const char *p) { %s r; for (int i = 0; i < %d; i++) r.m0[i] = p[i] ^ 1; return r; }" % (K, n, K, sz))
+        return "\n".join(L) + "\n"
+
+    def caller_c(self):
+        K, n = ctype(self.kind), self.n
+        L = ["%s mk_%d(int); %s rv_%d(const char *); long use2_%d(const char *, const char *); long use3_%d(const char *, const char *, const char *);" % (K, n, K, n, n, n),
+             "void caller_%d(void) {" % n]
+        if self.shape == "chain":
+            L.append("  %s d; d = rv_%d(mk_%d(1).m0);" % (K, n, n))
+            L += ["  rec(d.m0[%d]);" % i for i in range(self.sz)]
+        elif self.shape == "pair":
+            L.append("  rec(use2_%d(mk_%d(1).m0, mk_%d(40).m0));" % (n, n, n))
+        else:
+            L.append("  rec(use3_%d(mk_%d(1).m0, mk_%d(40).m0, mk_%d(80).m0));" % (n, n, n, n))
+        L.append("  flush(\"r\", %d);\n}" % n)
+        return "\n".join(L) + "\n"
+
+    def expected(self):
+        if self.shape == "chain":
+            return {"r": [(1 + i) ^ 1 for i in range(self.sz)]}
+        w = [1, 1000000, 1000000000000]
+        return {"r": [sum(w[k] * (b + i) * (i + 1) for k, b in enumerate(self.bases) for i in range(self.sz))]}
+
+    def describe(self, got, exp):
+        return self.key()
+
+
+# ------------------------------------------------------------------ x87 control word / MXCSR across calls (FpCtl.tla)
+def ext80(fr):
+    """(low 64 bits as signed long, sign+exponent) of the long double nearest to the positive Fraction fr"""
+    from fractions import Fraction
+    e = 0
+    while fr / Fraction(2) ** e >= 2 ** 64:
+        e += 1
+    while fr / Fraction(2) ** e < 2 ** 63:
+        e -= 1
+    m = fr / Fraction(2) ** e
+    mant = m.numerator // m.denominator
+    rem = m - mant
+    if rem > Fraction(1, 2) or (rem == Fraction(1, 2) and mant & 1):
+        mant += 1
+    if mant == 2 ** 64:
+        mant >>= 1
+        e += 1
+    return s64(mant), e + 63 + 16383
+
+
+class FpCase:
+    """long double -> integer conversions of one target type (values on both sides of half the range) and long
+    double arithmetic inside the callee; the gcc caller compares fnstcw / stmxcsr before and after every call,
+    with the default control word and with the rounding mode set to `up`"""
+    RANGE = dict(char=(-128, 127), schar=(-128, 127), uchar=(0, 255), short=(-32768, 32767), ushort=(0, 65535),
+                 int=(-2 ** 31, 2 ** 31 - 1), uint=(0, 2 ** 32 - 1), long=(-2 ** 63, 2 ** 63 - 1), ulong=(0, 2 ** 64 - 1))
+
+    def __init__(self, to):
+        from fractions import Fraction as Fr
+        self.n, self.to, self.args = 0, to, [to]
+        lo, hi = self.RANGE[to]
+        half = (hi + 1) // 2 if lo == 0 else (hi + 1) // 2
+        cand = [Fr(0), Fr(7, 4), Fr(399, 100) if False else Fr(31, 8), Fr(hi), Fr(hi) - Fr(1, 2), Fr(hi) + Fr(1, 2), Fr(half), Fr(half) + Fr(1, 2),
+                Fr(half) - 1, Fr(half) + 2048 + Fr(1, 2), Fr(lo), Fr(lo) - Fr(1, 2), Fr(lo) + Fr(1, 2), Fr(-3, 2)]
+        vals = []
+        for v in cand:
+            t = int(v) if v >= 0 else -int(-v)          # truncation toward zero
+            num = abs(v.numerator)
+            while num and num % 2 == 0:
+                num //= 2
+            if lo <= t <= hi and num.bit_length() <= 64 and (v >= 0 or lo < 0) and v not in [x for x, _ in vals]:
+                vals.append((v, t))
+        self.vals = vals
+
+    def key(self):
+        return "fpctl:ldouble->%s" % self.to
+
+    def lit(self, v):
+        a = abs(v)
+        s = "%d.%sL" % (a.numerator // a.denominator, {1: "0", 2: "5", 4: "%02d" % (25 * (a.numerator % 4)), 8: "%03d" % (125 * (a.numerator % 8))}[a.denominator])
+        return ("-" if v < 0 else "") + s
+
+    def callee_c(self):
+        t, n = INT_C[self.to], self.n
+        return ("%s cvl_%d(long double x) { return (%s)x; }\n"
+                "long double div_%d(long double a, long double b) { return a / b; }\n"
+                "long double mix_%d(long double x, long double a, long double b) { %s u = x; return a / b + (u & 0); }\n" % (t, n, t, n, n, t))
+
+    def caller_c(self):
+        t, n = INT_C[self.to], self.n
+        L = ["%s cvl_%d(long double); long double div_%d(long double, long double); long double mix_%d(long double, long double, long double);" % (t, n, n, n),
+             "void caller_%d(void) {" % n, "  union { long double e; unsigned long u[2]; } q;"]
+        for up in (False, True):
+            if up:
+                L.append("  RC_UP;")
+            for v, _ in self.vals:
+                L.append("  { volatile long double v = %s; long r; SAVE_REGS; r = cvl_%d(v); CHECK_REGS; rec(r); }" % (self.lit(v), n))
+            if up:
+                L.append("  RC_DFLT;")
+        big = self.vals[[x for x, _ in self.vals].index(max(x for x, _ in self.vals))][0]
+        L.append("  { volatile long double a = 2.0L, b = 3.0L; SAVE_REGS; q.e = div_%d(a, b); CHECK_REGS; rec(q.u[0]); rec(q.u[1] & 0x7fff); }" % n)
+        L.append("  { volatile long double a = 2.0L, b = 3.0L, x = %s; SAVE_REGS; q.e = mix_%d(x, a, b); CHECK_REGS; rec(q.u[0]); rec(q.u[1] & 0x7fff); }" % (self.lit(big), n))
+        L.append("  flush(\"r\", %d);\n}" % n)
+        return "\n".join(L) + "\n"
+
+    def expected(self):
+        from fractions import Fraction as Fr
+        out = []
+        for _ in range(2):
+            for _, t in self.vals:
+                out += [1, s64(t)]
+        lo, hi = ext80(Fr(2, 3))
+        out += [1, lo, hi, 1, lo, hi]
+        return {"r": out}
+
+    def describe(self, got, exp):
+        for i, (g, e) in enumerate(zip(got + [None] * len(exp), exp)):
+            if g != e:
+                return "%s field %d: %s" % (self.key(), i, "control word / MXCSR changed by the callee" if g == 2 else "value")
+        return self.key()
+
+
 def judge_simple(ctx, case, results, family):
     """cases whose expectation the spec fixes completely: all three linkings with a chibicc side must match; gcc x gcc is the tie-break"""
     exp = case.expected()
@@ -413,15 +558,24 @@ CALLER_PRE = r"""
 #ifdef GCC_SIDE
 register long R_rbx asm("rbx"); register long R_r12 asm("r12"); register long R_r13 asm("r13");
 register long R_r14 asm("r14"); register long R_r15 asm("r15");
-#define SAVE_REGS long o1_ = R_rbx, o2_ = R_r12, o3_ = R_r13, o4_ = R_r14, o5_ = R_r15; \
+static inline unsigned short get_cw_(void) { unsigned short c; __asm__ volatile("fnstcw %0" : "=m"(c)); return c; }
+static inline unsigned get_mx_(void) { unsigned m; __asm__ volatile("stmxcsr %0" : "=m"(m)); return m & 0xffc0; }
+static inline void set_cw_(unsigned short c) { __asm__ volatile("fldcw %0" : : "m"(c)); }
+static inline void set_mx_(unsigned m) { unsigned a; __asm__ volatile("stmxcsr %0" : "=m"(a)); a = (a & ~0xffc0u) | m; __asm__ volatile("ldmxcsr %0" : : "m"(a)); }
+#define RC_UP set_cw_((get_cw_() & ~0x0c00) | 0x0800)
+#define RC_DFLT set_cw_(0x037f)
+#define SAVE_REGS unsigned short cw0_ = get_cw_(); unsigned mx0_ = get_mx_(); long o1_ = R_rbx, o2_ = R_r12, o3_ = R_r13, o4_ = R_r14, o5_ = R_r15; \
   R_rbx = 0x1111111111111111; R_r12 = 0x2222222222222222; R_r13 = 0x3333333333333333; \
   R_r14 = 0x4444444444444444; R_r15 = 0x5555555555555555
-#define CHECK_REGS rec(R_rbx == 0x1111111111111111 && R_r12 == 0x2222222222222222 && R_r13 == 0x3333333333333333 \
-  && R_r14 == 0x4444444444444444 && R_r15 == 0x5555555555555555); \
+#define CHECK_REGS rec(!(R_rbx == 0x1111111111111111 && R_r12 == 0x2222222222222222 && R_r13 == 0x3333333333333333 \
+  && R_r14 == 0x4444444444444444 && R_r15 == 0x5555555555555555) ? 0 : (get_cw_() == cw0_ && get_mx_() == mx0_) ? 1 : 2); \
+  set_cw_(cw0_); set_mx_(mx0_); \
   R_rbx = o1_; R_r12 = o2_; R_r13 = o3_; R_r14 = o4_; R_r15 = o5_
 #else
 #define SAVE_REGS
 #define CHECK_REGS rec(1)
+#define RC_UP
+#define RC_DFLT
 #endif
 volatile long vv1 = 1000, vv2 = 2000, vv3 = 3000;
 long id3(long, long, long);
@@ -582,6 +736,8 @@ def judge(ctx, case, results):
         retbad = what == "r" and r[0] == "ok" and r[1].get("r", [])[1:-1] != exp["r"][1:-1]
         if what == "r" and r[0] == "ok" and r[1].get("r", [None])[:1] == [0]:
             cls = "callee-saved-register-clobbered"
+        elif what == "r" and r[0] == "ok" and r[1].get("r", [None])[:1] == [2]:
+            cls = "fp-control-state-changed"
         elif what == "x":
             cls = "ret-rax-not-hidden-pointer"
         elif retbad and rpred:
@@ -715,7 +871,7 @@ def make_cases(beh, seed, probes=()):
 def small_models(ctx):
     """ArgConv.tla and RetSlot.tla: model check (+ sensitivity controls), return the emitted behaviours"""
     out = {}
-    for mod, floor in (("ArgConv", 1000), ("RetSlot", 14)):
+    for mod, floor in (("ArgConv", 1000), ("RetSlot", 14), ("RetTemps", 9), ("FpCtl", 9)):
         ctl = ctx.tlc("abi", mod, mod + "_pinned.cfg", env=dict(OUT=os.devnull), workers=2, timeout=300, count=False)
         if ctl.ok:
             raise Infra("sensitivity control failed: TLC accepts %s_pinned.cfg" % mod)
@@ -740,6 +896,12 @@ def small_cases(sm):
         groups.setdefault((v["from"], v["to"]), []).append(v)
     conv = [ConvCase(f, t, groups[(f, t)]) for (f, t) in sorted(groups)]
     slot = [SlotCase(b["shape"], b["flavour"], k) for b in sm["RetSlot"] for k in ("S24", "Sc17")]
+    slot += [TempCase(b["shape"], b["cls"], b["flavour"], k) for b in sm["RetTemps"]
+             for k in (("Sc17",) if b["cls"] == "mem" else ("Sc16", "Sc13", "Sc5", "Sc3"))]
+    rows = {b["row"] for b in sm["FpCtl"]}
+    tos = [t for t in ("char", "schar", "uchar", "short", "ushort", "int", "uint", "long", "ulong")
+           if dict(char="i8", schar="i8", uchar="u8", short="i16", ushort="u16", int="i32", uint="u32", long="i64", ulong="u64")[t] in rows]
+    slot += [FpCase(t) for t in tos]
     return conv, slot
 
 
@@ -794,7 +956,7 @@ def run(ctx):
         judge_simple(ctx, c, r2.get(id(c), {}), "argconv")
     r3 = run_cases(ctx, tree, slot, "slot", size=28)
     for c in slot:
-        judge_simple(ctx, c, r3.get(id(c), {}), "retslot")
+        judge_simple(ctx, c, r3.get(id(c), {}), c.key().split(":", 1)[0])
     ctx.sample(dict(kind="argument conversion", pair=conv[len(conv) // 2].key(), values=len(conv[0].vals), expected=conv[len(conv) // 2].expected()["r"][:6]))
     ctx.sample(dict(kind="return slot", case=slot[0].key(), expected=slot[0].expected()))
     ncases = len(cases) + len(conv) + len(slot)
@@ -816,7 +978,7 @@ def run(ctx):
 def replay(ctx, path):
     c = json.load(open(os.path.join(path, "case.json")))
     c = c.get("case") or c
-    if c.get("kind") in ("argconv", "retslot", "tlc-small"):
+    if c.get("kind") in ("argconv", "retslot", "rettemps", "fpctl", "tlc-small"):
         sm = small_models(ctx)
         if c["kind"] != "tlc-small":
             tree = ctx.build()
